@@ -367,7 +367,7 @@ def gen_graph_job(job):
             av, ae = _graph_tables(aug, e)
             tsm = max([r["end"] for rows in bv.values() for r in rows if r["seq"] >= 0] + [0])
             out["traces"].append(dict(id=f"{job['id']}/aug{ai}/e{e}", cfg=tcfg, ts_max=10 ** 6,  # no horizon is requested from augment_graphs
- verts=av, edges=ae, before=dict(verts=bv, edges=be),
+                                      verts=av, edges=ae, before=dict(verts=bv, edges=be),
                                       generated_nodes=sorted(set(av) - set(bv)), generated_conns=sorted(set(ae) - set(be))))
             # bitwise: every array of the input reappears in the output
             same = all(onp.array_equal(onp.asarray(getattr(aug.vertices[k], f)), onp.asarray(getattr(sub.vertices[k], f)))
@@ -375,6 +375,23 @@ def gen_graph_job(job):
             same = same and all(onp.array_equal(onp.asarray(getattr(aug.edges[k], f)), onp.asarray(getattr(sub.edges[k], f)))
                                 for k in sub.edges for f in ("seq_out", "seq_in", "ts_recv"))
             out["checks"].append(dict(kind="augment_bitwise", trace=f"{job['id']}/aug{ai}/e{e}", ok=bool(same)))
+    # ragged stack: two generated episodes of different length, one node removed and added again. The horizon of an augmentation is per episode:
+    # what rex derives from THAT episode's existing vertices (the largest ts_end stored in the episode's rows); nothing added may end after it
+    if len(names) > 2:
+        T2 = max(ts_max // 2, 8)
+        ga = generate_graphs(nodes, ts_max=ts_max / GRID, rng=jax.random.PRNGKey(job["seed"] + 5), num_episodes=1)
+        gb = generate_graphs(nodes, ts_max=T2 / GRID, rng=jax.random.PRNGKey(job["seed"] + 6), num_episodes=1)
+        st = base.Graph.stack([jax.tree_util.tree_map(lambda x: x[0], ga), jax.tree_util.tree_map(lambda x: x[0], gb)])
+        dn = names[job["seed"] % len(names)]
+        sub = base.Graph(vertices={k: v for k, v in st.vertices.items() if k != dn},
+                         edges={k: v for k, v in st.edges.items() if dn not in k})
+        aug = augment_graphs(sub, nodes, rng=jax.random.PRNGKey(job["seed"] + 23))
+        for e in range(2):
+            hz = max(float(onp.asarray(v.ts_end)[e].max()) for v in sub.vertices.values())
+            bv, be = _graph_tables(sub, e)
+            av, ae = _graph_tables(aug, e)
+            out["traces"].append(dict(id=f"{job['id']}/augragged/e{e}", cfg=tcfg, ts_max=int(round(hz * GRID)), verts=av, edges=ae, before=dict(verts=bv, edges=be),
+                                      generated_nodes=sorted(set(av) - set(bv)), generated_conns=sorted(set(ae) - set(be))))
     return out
 
 
@@ -548,6 +565,29 @@ def algebra_job(job):
                                       flag=flag, ends=ends, out=_tables_of_record(ro)))
                 except Exception as e:  # noqa
                     cases_extra.append(dict(kind="record_filter_raises", sel=list(sel), flag=flag, ok=False, detail=repr(e)[:300]))
+    # filter nodes whose connection structure is a SUB-structure of the recorded system (the selection is made by the nodes handed to filter(), with
+    # their own inputs): a sender that keeps one of its consumers and loses another, all three nodes selected
+    import copy
+    if len(cfg["conns"]) >= 2:
+        for vi in range(2):
+            cfg2 = copy.deepcopy(cfg)
+            drop = rng.sample(range(len(cfg2["conns"])), rng.randint(1, max(1, len(cfg2["conns"]) // 2)))
+            cfg2["conns"] = [c for j, c in enumerate(cfg2["conns"]) if j not in drop]
+            nodes2 = gen.build_nodes(cfg2, log=False)
+            ends2 = {f"{c['out']}>{c['in']}": [c["out"], c["in"]] for c in cfg2["conns"]}
+            sel = tuple(names) if vi == 0 else tuple(rng.sample(names, max(2, len(names) - 1)))
+            sub2 = {k: nodes2[k] for k in sel}
+            gi = graphs[vi % len(graphs)]
+            try:
+                out2 = gi.filter(sub2, filter_edges=True)
+                cases.append(dict(id=f"{job['id']}/filter_sub/{vi}", op="filter", g=_tables_of_graph(gi), sel=list(sel), flag=True, ends=ends2, out=_tables_of_graph(out2)))
+                if recs is not None:
+                    r = recs[vi % len(recs)]
+                    ro = r.filter(sub2, filter_connections=True)
+                    cases.append(dict(id=f"{job['id']}/record_filter_sub/{vi}", op="record_filter", rec=_tables_of_record(r), sel=list(sel), flag=True, ends=ends2,
+                                      out=_tables_of_record(ro)))
+            except Exception as e:  # noqa
+                cases_extra.append(dict(kind="filter_with_substructure_raises", sel=list(sel), ok=False, detail=repr(e)[:300]))
     for i, g in enumerate(graphs[:2]):
         G = to_networkx_graph(stacked[i], nodes=nodes)
         nxn = [dict(name=str(n), kind=d["kind"], seq=int(d["seq"]), start=to_grid(d["ts_start"]), end=to_grid(d["ts_end"])) for n, d in G.nodes(data=True)]
